@@ -1603,10 +1603,105 @@ pub fn meta() -> CheckMeta {
     }
 }
 
+#[allow(dead_code, unused_imports, clippy::all)]
+mod tables {
+    // the working tree's tables (see c10.rs): used here only to aim integrands at the rules' own nodes
+    include!(concat!(env!("OUT_DIR"), "/tables_include.rs"));
+}
+
+/// Integrands that vanish exactly where a rule samples them (evaluated in factored form, so the zeros are
+/// exact): an even polynomial whose roots are the nodes of the n- and the (n+1)-point Gauss-Legendre rules -
+/// both rules give exactly 0 and "agree", although the integral is not 0; rules n+2 onwards are exact for it
+/// (degree 2n+2) - and (x^2 - a^2) g(x^2) with a an abscissa of the tanh-sinh rule, so that one mirror pair
+/// of a level contributes exactly 0. Tolerances are relative to the integral, whose closed form comes from
+/// the expanded polynomial.
+fn roots_at_nodes_case(rep: &mut Report, i: u64, seed: u64) {
+    let mut rng = Rng::for_case(seed, "c09-roots-at-nodes", i);
+    // squared roots r_k^2 and whether the factor x^2 is present
+    let gauss = i % 2 == 0;
+    let (roots, with_x2, what): (Vec<f64>, bool, String) = if gauss {
+        // rules n and n+1, n = 3..7 (not n = 2: with the node 0 of the 3-point rule the 1-point rule gives 0 as
+        // well - three rules in a row agree on 0, and no stopping rule that looks at rule values can tell)
+        let n = 3 + (i / 2 % 5) as usize;
+        let mut r = vec![];
+        let mut zero = false;
+        for row in [tables::WEIGHTS_LEGENDRE[n - 1], tables::WEIGHTS_LEGENDRE[n]] {
+            for (x, _) in row {
+                if *x == 0.0 {
+                    zero = true;
+                } else {
+                    r.push(*x);
+                }
+            }
+        }
+        (r, zero, format!("roots at the nodes of the {}- and {}-point Gauss-Legendre rules", n, n + 1))
+    } else {
+        let l = 1 + (i / 2 % 3) as usize;
+        let row = tables::WEIGHTS_DE[l];
+        let (_, a) = row[(i / 6) as usize % row.len().min(6)];
+        let mut r = vec![a];
+        // g(x^2): up to two further even factors with roots outside the interval (keeps the sign pattern simple)
+        for _ in 0..rng.below(3) {
+            r.push(rng.r(1.2, 3.0));
+        }
+        (r, rng.bool(), format!("(x^2 - a^2) g(x^2) with a = abscissa {:e} of tanh-sinh level {}", a, l))
+    };
+    let amp = rng.sign() * rng.log10(-1.0, 2.0);
+    let f = |x: f64| -> f64 {
+        let mut v = amp;
+        if with_x2 {
+            v *= x * x;
+        }
+        for r in &roots {
+            v *= x * x - r * r;
+        }
+        v
+    };
+    // expanded in y = x^2: coefficients c_k of y^k, integral over [-1,1] = sum c_k 2/(2k+1)
+    let mut c = vec![amp];
+    if with_x2 {
+        c.insert(0, 0.0);
+    }
+    for r in &roots {
+        let mut next = vec![0.0; c.len() + 1];
+        for (k, ck) in c.iter().enumerate() {
+            next[k + 1] += ck;
+            next[k] -= ck * r * r;
+        }
+        c = next;
+    }
+    let exact: f64 = c.iter().enumerate().map(|(k, ck)| ck * 2.0 / (2 * k + 1) as f64).sum();
+    let mag: f64 = c.iter().enumerate().map(|(k, ck)| ck.abs() * 2.0 / (2 * k + 1) as f64).sum();
+    if !(exact.abs() > 1e-6 * mag) {
+        return;
+    }
+    let tol = exact.abs() * rng.log10(-6.0, -2.0);
+    let name = if gauss { "integrate_gaussian" } else { "integrate" };
+    probe::begin(2_000_000);
+    let res = if gauss { probe::guard(|| integrate_gaussian(-1.0, 1.0, |x: f64| { probe::tick(); f(x) }, tol)) } else { probe::guard(|| integrate(-1.0, 1.0, |x: f64| { probe::tick(); f(x) }, tol)) };
+    rep.eval();
+    rep.count(&format!("roots_at_nodes/{}", name), 1);
+    let case = || J::obj().set("routine", name).set("integrand", what.as_str()).set("amplitude", amp).set("factor_x2", with_x2).set("roots", J::fs(&roots)).set("interval", J::fs(&[-1.0, 1.0])).set("tol", tol).set("exact_integral", exact);
+    match res {
+        Guarded::Panic(m, l) => rep.violation(&format!("{}/panic", name), case(), format!("panicked: '{}' at {}", m, l)),
+        Guarded::Budget => rep.violation(&format!("{}/no-termination", name), case(), "evaluation budget exhausted".into()),
+        Guarded::Ok(Err(e)) => rep.violation(&format!("{}/err-on-polynomial", name), case(), format!("a polynomial of degree {} (exactly integrated by the rules from n = {} on) gave Err({})", 2 * (c.len() - 1), c.len(), e)),
+        Guarded::Ok(Ok(v)) => {
+            let err = (v - exact).abs();
+            rep.max(&format!("roots_at_nodes/{}/error_over_tol", name), err / tol);
+            rep.nontrivial(CaseHash::new("c09-ran").s(name).fs(&roots).f(amp).f(tol).0);
+            if !(err <= tol + 64.0 * EPS * mag) {
+                rep.violation(&format!("{}/roots-at-rule-nodes", name), case().set("returned", v), format!("{}: returned {:e}, the integral is {:e}: error {:e} = {:.3e} x tol ({})", name, v, exact, err, err / tol, what));
+            }
+        }
+    }
+}
+
 pub fn stages(ctx: &Ctx) -> Vec<Stage> {
     let seed = ctx.seed;
     let tier = ctx.tier;
     let mut st = vec![];
+    st.push(Stage::new("roots-at-rule-nodes", tier.pick(2_000u64, 20_000u64), move |i, rep| roots_at_nodes_case(rep, i, seed)));
     st.push(Stage::new("anchors", N_TEXTBOOK + ANCHORS_PER_TAG * STAGE_TAGS.len() as u64, move |i, rep| {
         if i < N_TEXTBOOK {
             textbook_anchor(i, rep);
@@ -1635,6 +1730,9 @@ pub fn thresholds(ctx: &Ctx, rep: &Report) -> Vec<Threshold> {
     // quick: 20 000 cases per stage, thorough: 400 000; required = roughly a third of what the
     // unchanged tree shows
     let m = ctx.tier.pick(1.0, 10.0);
+    for name in ["integrate_gaussian", "integrate"] {
+        t.push(Threshold { what: format!("{}: polynomials with exact zeros at the rule's own nodes", name), required: 600.0 * m, observed: rep.counter(&format!("roots_at_nodes/{}", name)) as f64 });
+    }
     let mut need = |what: String, quick: f64, key: String| {
         t.push(Threshold { what, required: quick * m, observed: rep.counter(&key) as f64 });
     };
